@@ -6,7 +6,6 @@ package pack
 
 func zzOptParamPack() *zzOpts { return nil }
 func zzOptCounterPack1() *zzOpts { return nil }
-func zzExtraProfilePack(p Pack) {}
 func zzOptProfilePack() *zzOpts { return nil }
 func zzExtraActiveStackPack(p Pack) {}
 func zzOptActiveStackPack() *zzOpts { return nil }
